@@ -226,8 +226,20 @@ func main() {
 	os.Stdout = devnull
 	start := time.Now()
 	runs, total := 0, 0
+	hang := func(what string) {
+		os.Stdout = saved
+		fmt.Printf("RACE-PASS-HANG history=%s\n", what)
+		os.Exit(3)
+	}
 	for i := 0; i < 5; i++ {
-		total += twoPorts()
+		ch := make(chan int, 1)
+		go func() { ch <- twoPorts() }()
+		select {
+		case d := <-ch:
+			total += d
+		case <-time.After(60 * time.Second):
+			hang("two in ports listening, two senders, stop, Driver.Close")
+		}
 		runs++
 	}
 	done := 0
@@ -242,14 +254,12 @@ func main() {
 			select {
 			case d := <-ch:
 				total += d
-			case <-time.After(20 * time.Second):
-				os.Stdout = saved
+			case <-time.After(60 * time.Second):
 				hn := ""
 				for _, op := range h {
 					hn += names[op] + " "
 				}
-				fmt.Printf("RACE-PASS-HANG history=%s\n", hn)
-				os.Exit(3)
+				hang(hn)
 			}
 			runs++
 		}
